@@ -116,6 +116,70 @@ pub struct Segments {
     snd_una: SeqNr,
 }
 
+/// Verification hook: read-only snapshot of one segment.
+#[cfg(librqbit_utp_verif)]
+#[derive(Debug, Clone, PartialEq, Eq)]
+pub struct VerifSegment {
+    pub payload_size: usize,
+    pub payload_offset_absolute: u64,
+    pub is_delivered: bool,
+    /// 0 = NotSent, 1 = SentTime, 2 = Retransmitted
+    pub sent_kind: u8,
+    pub retransmit_count: usize,
+    pub last_sent: Option<Instant>,
+    pub is_mtu_probe: bool,
+    pub is_lost: bool,
+    pub is_expired: bool,
+    pub has_sacks_after_it: bool,
+}
+
+/// Verification hook: read-only snapshot of the segment table.
+#[cfg(librqbit_utp_verif)]
+#[derive(Debug, Clone, PartialEq, Eq)]
+pub struct VerifSegmentsSnapshot {
+    pub segments: Vec<VerifSegment>,
+    pub len_bytes: usize,
+    pub offset: u64,
+    pub removed_offset: u64,
+    pub sack_depth: usize,
+    pub last_sack_empty: bool,
+    pub snd_una: SeqNr,
+}
+
+#[cfg(librqbit_utp_verif)]
+impl Segments {
+    pub fn verif_snapshot(&self) -> VerifSegmentsSnapshot {
+        VerifSegmentsSnapshot {
+            segments: self
+                .segments
+                .iter()
+                .map(|s| VerifSegment {
+                    payload_size: s.payload_size,
+                    payload_offset_absolute: s.payload_offset_absolute,
+                    is_delivered: s.is_delivered,
+                    sent_kind: match s.sent {
+                        SentStatus::NotSent => 0,
+                        SentStatus::SentTime(_) => 1,
+                        SentStatus::Retransmitted { .. } => 2,
+                    },
+                    retransmit_count: s.retransmit_count(),
+                    last_sent: s.last_sent(),
+                    is_mtu_probe: s.is_mtu_probe,
+                    is_lost: s.is_lost,
+                    is_expired: s.is_expired,
+                    has_sacks_after_it: s.has_sacks_after_it,
+                })
+                .collect(),
+            len_bytes: self.len_bytes,
+            offset: self.offset,
+            removed_offset: self.removed_offset,
+            sack_depth: self.sack_depth,
+            last_sack_empty: self.last_sack_empty,
+            snd_una: self.snd_una,
+        }
+    }
+}
+
 pub struct SegmentForSending<'a> {
     segment: &'a mut Segment,
     seq_nr: SeqNr,
